@@ -38,7 +38,7 @@ def confirm(d):
     wt = worktree(tag); res = {}
     try:
         shutil.copy(os.path.join(d, "zz_demo.rs"), os.path.join(wt, "tests", "zz_demo.rs"))
-        tgt = {"CARGO_TARGET_DIR": "/tmp/seedrun/target_%d" % os.getpid()}
+        tgt = {"CARGO_TARGET_DIR": "/tmp/seedrun/target_shared"}
         rc, out = sh("cargo test --offline --test zz_demo 2>&1", cwd=wt, env=tgt)
         res["demo_passes_unpatched"] = (rc == 0); res["demo_unpatched_tail"] = out[-600:]
         rc, out = sh("git apply %s" % os.path.join(d, "patch.diff"), cwd=wt)
@@ -54,7 +54,7 @@ def confirm(d):
         res["demo_fails_patched"] = (rc != 0); res["demo_patched_tail"] = out[-800:]
         res["confirmed"] = bool(res["demo_passes_unpatched"] and res["patch_applies"] and res["suite_passes_patched"] and res["demo_fails_patched"])
     finally:
-        drop(wt); shutil.rmtree("/tmp/seedrun/target_%d" % os.getpid(), ignore_errors=True)
+        drop(wt)
     json.dump(res, open(os.path.join(d, "confirm.json"), "w"), indent=1)
     print(d, "CONFIRMED" if res.get("confirmed") else "NOT CONFIRMED", {k: v for k, v in res.items() if isinstance(v, bool)})
     return res.get("confirmed")
